@@ -245,6 +245,9 @@ func fuzzPayload(s *Sim, n *Node, t *Tape, txs []*Tx) *Payload {
 
 // runC11 alternates between probed cluster runs and API fuzz runs.
 func runC11(t *Tape, record bool) *RunResult {
+	if t.Chance(SScen, 1, 16) {
+		return directedChangeViewRun(func(s *Sim) { s.AddOracle(NewOracleC11(s)) })(t, record)
+	}
 	if t.Draw(SScen, 2) == 0 {
 		sc := SafetyScenario(t)
 		sc.DevLogger = true
